@@ -56,7 +56,8 @@ vlib.standard_check({
                   "on generated designs vs model; verdict vs path specification.",
     "assumptions": ["influence through memory *contents* (write port clock -> read data) is not a path: Node_MemPort::getOutputClockRelation ignores it by design",
                     "Node_External / vendor RAM primitives with their own checkValidInputClocks are not modelled (harness would report them as unsupported)",
-                    "the check runs after optimisation: crossings on logic that post-processing removes (constant-select mux, marker on a constant, unused logic) "
-                    "are not part of the generated designs",
+                    "the check runs after optimisation: structural crossings that post-processing removes before the check (constant-select mux, AND/OR with a constant, "
+                    "marker on a constant, unused logic, the order dependency between two read ports of one memory) are kept out of the generated designs; "
+                    "hazards that involve only unbound clock slots (reachable only through the hlim API) are compared model-vs-code but not judged as property failures",
                     "Node_Signal2Clk/Signal2Rst inputs (clock/reset overrides) are exempt from the check in the code and in the model"],
 })
